@@ -168,6 +168,12 @@ def check_model(case, rec):
     from mpilot.program import EEMS_CSV_LIBRARIES, Program
 
     v2_text, v3_text, names = renderings(case)
+    if case.get("numeric_columns"):
+        # columns named by year: the field name of a read is then written as a number in both files
+        import re
+
+        num = lambda t: re.sub(r'InFieldName = "?c(\d)"?', lambda m: "InFieldName = %d" % (2020 + int(m.group(1))), t)
+        v2_text, v3_text = num(v2_text), num(v3_text)
     if not any(l.split("(")[0].split("=")[-1].strip() in EEMS2 for l in v2_text.splitlines()):
         rec.exclude("no_v2_command_in_file")
         return []
@@ -175,6 +181,12 @@ def check_model(case, rec):
     fails = []
     try:
         M.write_table(case["model"], os.path.join(tmp, "input.csv"))
+        if case.get("numeric_columns"):
+            with open(os.path.join(tmp, "input.csv")) as f:
+                head, rest = f.read().split("\n", 1)
+            with open(os.path.join(tmp, "input.csv"), "w") as f:
+                f.write(",".join(str(2020 + int(h[1:])) if h[:1] == "c" and h[1:].isdigit() else h for h in head.split(",")) + "\n" + rest)
+            rec.label("numeric_column_names")
         from ..history import maybe_earlier_v2_load
 
         maybe_earlier_v2_load(v3_text)
@@ -250,7 +262,12 @@ def model_cases(draw):
         for s_ in styles:  # a file in which no command is written bare
             s_["assigned"] = True
             s_["omit_new_field"] = False
-    return {"model": model, "styles": styles, "name_style": draw(st.sampled_from([0, 0, 1, 2, 3, 4]))}
+    case = {"model": model, "styles": styles, "name_style": draw(st.sampled_from([0, 0, 1, 2, 3, 4]))}
+    if draw(st.integers(0, 3)) == 0:
+        case["numeric_columns"] = True
+        for s_ in styles:
+            s_["omit_new_field"] = False  # a number cannot name a result
+    return case
 
 
 PARTS = {"name": check_name, "model": check_model}
